@@ -3,6 +3,13 @@ import json, os
 ROOT = os.path.dirname(os.path.dirname(os.path.abspath(__file__)))
 PROPS = [json.loads(l) for l in open(os.path.join(ROOT, "properties.jsonl"))]
 from manifest_table import CHECKS, NOT_APPLICABLE, FIX_COMMITS  # noqa
+import subprocess
+try:   # the list of repairs is read from /repo's history when the manifest is regenerated (by hand, result committed)
+    _log = subprocess.run(["git", "-C", "/repo", "log", "--reverse", "--format=%h %s"], capture_output=True, text=True).stdout
+    _fx = [l.split()[0] for l in _log.splitlines() if l.split(" ", 1)[1].startswith("fix:")]
+    FIX_COMMITS = _fx or FIX_COMMITS
+except Exception:  # noqa
+    pass
 
 m = {
     "version": 1,
